@@ -22,6 +22,7 @@ func init() {
 		},
 		Run: runC04,
 		Controls: []Control{
+			{Name: "initial-dump-from-a-snapshot-after-unlock", File: "routingtable/locRIB/loc_rib.go", Old: "func (a *LocRIB) UpdateNewClient(client routingtable.RouteTableClient) error {\n\ta.mu.RLock()\n\tdefer a.mu.RUnlock()\n", New: "func (a *LocRIB) UpdateNewClient(client routingtable.RouteTableClient) error {\n\ta.mu.RLock()\n\ta.mu.RUnlock()\n", Expect: "client-notified-under-table-lock"},
 			{Name: "propagation-skipped-when-selection-unchanged", File: "routingtable/locRIB/loc_rib.go", Old: "func (a *LocRIB) propagateChanges(oldRoute *route.Route, newRoute *route.Route) {\n", New: "func (a *LocRIB) propagateChanges(oldRoute *route.Route, newRoute *route.Route) {\n\tif oldRoute.ECMPPathCount() == newRoute.ECMPPathCount() && oldRoute.BestPath() == newRoute.BestPath() {\n\t\treturn\n\t}\n", Expect: "withdraw-before-announce"},
 			{Name: "diff-by-selection-equality", File: "route/path.go", Old: "\t\tif p == needle {\n", New: "\t\tif p == needle || p.Equal(needle) {\n", Expect: "diff-membership-is-identity"},
 			{Name: "refactor-diff-operands-swapped", Silent: true, File: "route/path.go", Old: "\t\tif p == needle {\n", New: "\t\tif needle == p {\n"},
@@ -36,6 +37,7 @@ func init() {
 const locPkg = "routingtable/locRIB"
 
 func runC04(c *core.Ctx) {
+	clientNotifiedUnderTableLock(c, "client-notified-under-table-lock", "routingtable/locRIB", "LocRIB", 4)
 	p := c.P
 	diffMembership(c)
 	sel := p.Func("route.(*Route).PathSelection")
